@@ -860,6 +860,7 @@ func main() {
 	setNthValue(&o, f)
 	setLag(&o, f)
 	registry(&o, f)
+	skeletons(&o, f)
 	o.WriteString("end Csvq.Gen.An\n")
 	fmt.Print(o.String())
 }
@@ -1497,6 +1498,69 @@ func registry(o *strings.Builder, f *ast.File) {
 	// CheckArgsLen (the shared function)
 	keywordClasses(o)
 	grammarForms(o)
+}
+
+// ---------- Analyze, evalAnalyticFunction, SortValues.Serialize: list code, kept as text ----------
+
+func stmtTexts(fd *ast.FuncDecl) []string {
+	var out []string
+	for _, s := range fd.Body.List {
+		out = append(out, src(s))
+	}
+	return out
+}
+
+func skeletons(o *strings.Builder, f *ast.File) {
+	an := findFunc(f, "", "Analyze")
+	fmt.Fprintf(o, "/-- Analyze, statement by statement (function lookup and argument checks; the partition key of every record —\n    cached sort values, `SortValues.Serialize`; the partitions map in order of first appearance; the worker\n    function: Execute for analytic functions, frames × windowValues × aggregate for aggregates and user-defined\n    aggregates; the fan-out; the new header field) -/\ndef analyzeStatements : List String :=\n  %s\n\n", strList(stmtTexts(an)))
+	fs := token.NewFileSet()
+	_ = fs
+	vf, err := parser.ParseFile(fset, filepath.Join(repo(), "lib", "query", "view.go"), nil, 0)
+	if err != nil {
+		die("%v", err)
+	}
+	ev := findFunc(vf, "View", "evalAnalyticFunction")
+	fmt.Fprintf(o, "/-- View.evalAnalyticFunction: PARTITION BY columns evaluated, the view ordered by the clause's ORDER BY, Analyze,\n    the sort state discarded -/\ndef evalAnalyticFunctionStatements : List String :=\n  %s\n\n", strList(stmtTexts(ev)))
+	sf, err := parser.ParseFile(fset, filepath.Join(repo(), "lib", "query", "sort_value.go"), nil, 0)
+	if err != nil {
+		die("%v", err)
+	}
+	ser := findFunc(sf, "SortValues", "Serialize")
+	// for i, val := range values { if 0 < i {WriteByte(58)}; if val.SerializedKey != nil {…; continue}; switch val.Type { case …: call } }
+	if len(ser.Body.List) != 1 {
+		die("SortValues.Serialize: body is no longer a single loop")
+	}
+	rs, ok := ser.Body.List[0].(*ast.RangeStmt)
+	if !ok {
+		die("SortValues.Serialize: body is no longer a single loop")
+	}
+	var pre []string
+	var cases []string
+	for _, st := range rs.Body.List {
+		sw, ok := st.(*ast.SwitchStmt)
+		if !ok {
+			pre = append(pre, src(st))
+			continue
+		}
+		if src(sw.Tag) != "val.Type" {
+			die("SortValues.Serialize: switch over `%s`", src(sw.Tag))
+		}
+		for _, cl := range sw.Body.List {
+			cc := cl.(*ast.CaseClause)
+			var ts, body []string
+			for _, e := range cc.List {
+				ts = append(ts, src(e))
+			}
+			for _, b := range cc.Body {
+				body = append(body, src(b))
+			}
+			cases = append(cases, "("+q(strings.Join(ts, ", "))+", "+q(strings.Join(body, "; "))+")")
+		}
+	}
+	if len(cases) == 0 {
+		die("SortValues.Serialize: the switch over val.Type was not found")
+	}
+	fmt.Fprintf(o, "/-- SortValues.Serialize (the partition key): what is written before the typed part … -/\ndef serializePrologue : List String :=\n  %s\n\n/-- … and the serialiser of every sort value type -/\ndef serializeCases : List (String × String) :=\n  [%s]\n\n", strList(pre), strings.Join(cases, ", "))
 }
 
 func keywordClasses(o *strings.Builder) {
